@@ -361,4 +361,161 @@ theorem C10_cookware_conserves (vs : List (Value Rat)) :
   exact ⟨g, hg, h _ (vEnd_additive false), h _ (vEnd_additive true),
     valueTexts_perm (fun t => h _ (vText_additive t))⟩
 
+/-! ## witnesses and non-vacuity -/
+
+namespace C10Witness
+
+def cB : Converter Rat := Converter.bundled Rat
+/-- two legitimate iteration orders of the hash map -/
+def idOrd : MapOrder Rat := fun l => l
+def revOrd : MapOrder Rat := fun l => l.reverse
+theorem idOrd_isPerm : idOrd.IsPerm := fun l => List.Perm.refl l
+theorem revOrd_isPerm : revOrd.IsPerm := fun l => List.reverse_perm l
+
+def kg : Str := ['k', 'g']
+def gram : Str := ['g']
+def bag : Str := ['b', 'a', 'g']
+def degC : Str := ['°', 'C']
+def degF : Str := ['°', 'F']
+def tuna : Str := ['t', 'u', 'n', 'a']
+def chicken : Str := ['c', 'h', 'i', 'c', 'k', 'e', 'n', ' ', 'o', 'f', ' ', 't', 'h', 'e', ' ', 's', 'e', 'a']
+def canned : Str := ['c', 'a', 'n', 'n', 'e', 'd']
+def flour : Str := ['f', 'l', 'o', 'u', 'r']
+def num (v : Rat) (u : Option Str) : SQuantity Rat := ⟨.number (.regular v), u⟩
+def ing (name : Str) (q : Option (SQuantity Rat)) (rel : IngredientRelation) (mods : Nat) :
+    Ingredient (Value Rat) :=
+  { name := name, alias := none, quantity := q, note := none, reference := none, relation := rel,
+    modifiers := ⟨mods⟩ }
+
+/-- the doc example of `group_quantities`: `@flour{1000%g} @&flour{200%g} @&flour{1%bag}` plus a
+    range and a text -/
+def flourQs : List (SQuantity Rat) :=
+  [num 1000 (some gram), num 200 (some gram), num 1 (some bag),
+   ⟨.range (.regular 1) (.fraction 2 1 2 0), some kg⟩, ⟨.text ['s', 'o', 'm', 'e'], none⟩]
+
+/-- the theorems speak about non-trivial groups: 1000 g + 200 g + 1–2½ kg = 2200–3700 g,
+    one bag apart, the text kept; for both iteration orders -/
+example : total cB (.known .mass) ((addAll cB empty flourQs).iter idOrd) = (2200, 3700) ∧
+    total cB (.unknown bag) ((addAll cB empty flourQs).iter revOrd) = (1, 1) ∧
+    texts ((addAll cB empty flourQs).iter idOrd) = [⟨.text ['s', 'o', 'm', 'e'], none⟩] := by
+  decide +kernel
+
+example : total cB (.known .mass) ((addAll cB empty flourQs.reverse).fit cB).1.knownList = (2200, 3700) := by
+  decide +kernel
+
+/-- a recipe table that satisfies the invariant of `C10_group_counts_once`:
+    `@flour{1000%g} @water{} @&flour{200%g} @&(~1)flour{5%g}` (the last one refers to a step) -/
+def refRecipe : List (Ingredient (Value Rat)) :=
+  [ing flour (some (num 1000 (some gram))) ⟨.definition [2] true, none⟩ 0,
+   ing ['w'] none ⟨.definition [] true, none⟩ 0,
+   ing flour (some (num 200 (some gram))) ⟨.reference 0, some .ingredient⟩ 2,
+   ing flour (some (num 5 (some gram))) ⟨.reference 1, some .step⟩ 2]
+
+theorem refRecipe_consistent : RefsConsistent refRecipe := by
+  refine ⟨?_, ?_, ?_⟩
+  · intro d i hd j hj
+    have hlt : d < 4 := (List.getElem?_eq_some_iff.mp hd).1
+    match d, hlt with
+    | 0, _ => cases hd; simp [ing, ComponentRelation.referencedFrom] at hj; subst hj; exact ⟨_, rfl, rfl⟩
+    | 1, _ => cases hd; simp [ing, ComponentRelation.referencedFrom] at hj
+    | 2, _ => cases hd; simp [ing, ComponentRelation.referencedFrom] at hj
+    | 3, _ => cases hd; simp [ing, ComponentRelation.referencedFrom] at hj
+  · intro j ij d hj hrel
+    have hlt : j < 4 := (List.getElem?_eq_some_iff.mp hj).1
+    match j, hlt with
+    | 0, _ => cases hj; simp [ing] at hrel
+    | 1, _ => cases hj; simp [ing] at hrel
+    | 2, _ =>
+      cases hj; simp [ing] at hrel; subst hrel
+      exact ⟨_, rfl, rfl, by simp [ing, ComponentRelation.referencedFrom]⟩
+    | 3, _ => cases hj; simp [ing] at hrel
+  · intro d i hd
+    have hlt : d < 4 := (List.getElem?_eq_some_iff.mp hd).1
+    match d, hlt with
+    | 0, _ => cases hd; simp [ing, ComponentRelation.referencedFrom]
+    | 1, _ => cases hd; simp [ing, ComponentRelation.referencedFrom]
+    | 2, _ => cases hd; simp [ing, ComponentRelation.referencedFrom]
+    | 3, _ => cases hd; simp [ing, ComponentRelation.referencedFrom]
+
+/-- … and on it the list has one entry `flour` holding 1200 g: the reference is counted under
+    its definition, the intermediate reference (5 g) nowhere -/
+example : ((addRecipes idOrd cB [] [⟨[], refRecipe, [], [], []⟩]).map
+    (fun l => (l.map (·.1), total cB (.known .mass) (entryQuantities idOrd l flour)))) =
+    some ([flour, ['w']], (1200, 1200)) := by decide +kernel
+
+end C10Witness
+
+open C10Witness in
+/-- Why the conservation theorems ask for `LinearClass`: with offset units (temperature) a "sum"
+    depends on the unit it is made in, so no implementation can make the total independent of the
+    order — 10 °C then 32 °F is kept in °C, 32 °F then 10 °C in °F, and the two totals are
+    different amounts (witness on the bundled converter, decided by the kernel). -/
+theorem C10_offset_units_do_not_sum :
+    ¬ LinearClass cB (.known .temperature) ∧
+    (total cB (.known .temperature) ((addAll cB empty [num 10 (some degC), num 32 (some degF)]).iter idOrd)).1 ≠
+    (total cB (.known .temperature) ((addAll cB empty [num 32 (some degF), num 10 (some degC)]).iter idOrd)).1 := by
+  constructor
+  · intro h
+    have hu : cB.findUnit degC ≠ none := by decide +kernel
+    cases hf : cB.findUnit degC with
+    | none => exact hu hf
+    | some u =>
+      have hd := h u (findUnit_mem hf)
+      have : (cB.findUnit degC).map (fun u => decide (u.pq = .temperature ∧ u.difference ≠ 0)) = some true := by
+        decide +kernel
+      rw [hf] at this
+      simp only [Option.map_some, Option.some.injEq, decide_eq_true_eq] at this
+      exact this.2 (hd this.1)
+  · decide +kernel
+
+namespace C10Witness
+
+/-- the aisle file `[canned]⏎tuna|chicken of the sea` -/
+def aisleText : List Char :=
+  ['[', 'c', 'a', 'n', 'n', 'e', 'd', ']', '\n'] ++ tuna ++ ['|'] ++ chicken
+def aisleConf : Aisle.Conf := ⟨[⟨canned, [⟨[tuna, chicken]⟩]⟩]⟩
+theorem aisle_parses : (Aisle.parse aisleText).toOption = some aisleConf := by decide +kernel
+
+/-- the recipe `@tuna{1%kg} @chicken of the sea{2%kg}` after analysis -/
+def tunaRecipe : ScaledRecipe Rat :=
+  ⟨[], [ing tuna (some (num 1 (some kg))) ⟨.definition [] true, none⟩ 0,
+        ing chicken (some (num 2 (some kg))) ⟨.definition [] true, none⟩ 0], [], [], []⟩
+
+def tunaList : IngredientList Rat := (addRecipes idOrd cB [] [tunaRecipe]).getD []
+
+end C10Witness
+
+open C10Witness in
+/-- DESIGN.md §8 item 8, the defect that fixes/0001-fix-categorize-… repairs: with the code as it
+    was (`insert` under the common name, `categorizeOrig`) the two listed names `tuna` and
+    `chicken of the sea` share the common name `tuna`, one entry overwrites the other and of the
+    3000 g the list holds only 1000 g arrive under (canned, tuna) — the conservation statement is
+    FALSE for the original code.  The repaired `categorize` delivers all 3000 g. -/
+theorem C10_categorize_orig_loses :
+    tunaList.map (·.1) = [chicken, tuna] ∧
+    (total cB (.known .mass) (sentQuantities idOrd aisleConf tunaList canned tuna)) = (3000, 3000) ∧
+    (total cB (.known .mass)
+      (categoryQuantities idOrd (categorizeOrig aisleConf tunaList) canned tuna)) = (1000, 1000) ∧
+    (total cB (.known .mass)
+      (categoryQuantities idOrd (categorize idOrd aisleConf tunaList) canned tuna)) = (3000, 3000) := by
+  decide +kernel
+
+open C10Witness in
+/-- … so `C10_categorize_conserves` cannot be stated for the original code -/
+theorem C10_categorize_orig_not_conserving :
+    ¬ Holds cB (.known .mass) (categoryQuantities idOrd (categorizeOrig aisleConf tunaList) canned tuna)
+        (sentQuantities idOrd aisleConf tunaList canned tuna) := by
+  intro h
+  have h1 := h.1
+  have := C10_categorize_orig_loses
+  rw [this.2.1, this.2.2.1] at h1
+  exact absurd h1 (by decide +kernel)
+
+/-- the hypotheses of the theorems are satisfiable together: the bundled converter is sound, its
+    mass class is linear, both orders are permutations, the witness table is consistent -/
+example : (Converter.bundled Rat).Sound ∧ LinearClass (Converter.bundled Rat) (.known .mass) ∧
+    C10Witness.idOrd.IsPerm ∧ C10Witness.revOrd.IsPerm ∧ RefsConsistent C10Witness.refRecipe :=
+  ⟨C09_bundled_sound, C10_bundled_linear _ (by decide), C10Witness.idOrd_isPerm,
+   C10Witness.revOrd_isPerm, C10Witness.refRecipe_consistent⟩
+
 end Cook
